@@ -490,7 +490,13 @@ func run(out, tier string, seed int64) {
 			}
 			cs.Exp = expected(ctxNode, cs.S)
 			css, xp := cs.S.css(), cs.S.xpath()
-			wk := []string{"data-w", "title", "data-k"}[rng.Intn(3)]
+			// from an element that does not itself match the first step, '//x' and './/x' name the same
+			// nodes (the element is the root of what the query sees): half of those cases use '//'
+			if cs.Ctx != nil && !cs.S[0].S.match(cs.Ctx) && rng.Intn(2) == 0 {
+				xp = xp[1:]
+				m.Count("xpath-leading-double-slash-on-element")
+			}
+			wk := []string{"data-w", "title", "data-k", "viewBox", "dataId"}[rng.Intn(5)] // names are kept as written, upper-case letters included
 			sk := append(append([]string{}, styleKeys...), "float")[rng.Intn(len(styleKeys)+1)]
 			frags := [][]*Node{
 				{{Tag: "span", Attrs: [][2]string{{"data-n", "901"}}, Kids: []*Node{{Text: "zz"}}}},
